@@ -30,6 +30,15 @@ def copy_repo():
     return d
 
 
+def apply_patch(patch, cwd):
+    """git apply; if the context moved (a later fix: commit touched neighbouring lines) fall back to patch(1) with fuzz."""
+    ap = subprocess.run(["git", "apply", patch], cwd=cwd, capture_output=True, text=True)
+    if ap.returncode == 0:
+        return True, "git apply"
+    pp = subprocess.run(["patch", "-p1", "-F3", "--no-backup-if-mismatch", "-i", patch], cwd=cwd, capture_output=True, text=True)
+    return pp.returncode == 0, "patch -F3: " + (pp.stdout + pp.stderr)[-300:]
+
+
 def run_checks(copy, props, tier):
     res = {}
     for p in props:
@@ -50,10 +59,10 @@ def verify(args):
     patched, clean = copy_repo(), copy_repo()
     out = dict(meta=meta)
     try:
-        ap = subprocess.run(["git", "apply", "--verbose", os.path.join(seed, "patch.diff")], cwd=patched, capture_output=True, text=True)
-        out["patch_applies"] = ap.returncode == 0
-        if ap.returncode != 0:
-            print("PATCH DOES NOT APPLY", ap.stderr[-500:])
+        ok, how = apply_patch(os.path.join(seed, "patch.diff"), patched)
+        out["patch_applies"] = ok
+        if not ok:
+            print("PATCH DOES NOT APPLY", how)
             return 2
         t = subprocess.run([PY, "-m", "pytest", "-q", "-p", "no:cacheprovider", "tests"], cwd=patched, capture_output=True, text=True,
                            env=dict(os.environ, PYTHONPATH=patched))
@@ -94,9 +103,9 @@ def recheck(args):
         meta = json.load(open(os.path.join(d, "meta.json")))
         patched = copy_repo()
         try:
-            ap = subprocess.run(["git", "apply", os.path.join(d, "patch.diff")], cwd=patched, capture_output=True, text=True)
-            if ap.returncode != 0:
-                print(sid, "PATCH DOES NOT APPLY ANY MORE")
+            ok, how = apply_patch(os.path.join(d, "patch.diff"), patched)
+            if not ok:
+                print(sid, "PATCH DOES NOT APPLY ANY MORE", how)
                 continue
             print(sid, meta["breaks"])
             props = ALL if args.all else [meta["breaks"]]
